@@ -26,6 +26,8 @@ pub enum Val { Null, Int(BigInt), Bytes(Vec<u8>), Struct(Vec<Val>), List(Vec<Val
 
 const T_INT: u8 = 0; const T_UINT: u8 = 1; const T_BOOL: u8 = 2; const T_FLOAT: u8 = 3; const T_FSB: u8 = 4;
 const T_VAR: u8 = 5; const T_STRUCT: u8 = 6; const T_LIST: u8 = 7; const T_FSL: u8 = 8; const T_REE: u8 = 9;
+/// Map(key, value): not modelled byte for byte; the specification treats it as List<Struct<key, value>> with non-null entries
+const T_MAP: u8 = 10;
 
 impl Ty {
     fn leaf(code: u8, param: usize, variant: u8, dict: u8) -> Ty { Ty { code, param, variant, dict, kids: vec![] } }
@@ -36,10 +38,13 @@ impl Ty {
     fn parse(t: &[i64], pos: &mut usize) -> Ty {
         let (code, param, variant, dict) = (t[*pos] as u8, t[*pos + 1] as usize, t[*pos + 2] as u8, t[*pos + 3] as u8);
         *pos += 4;
-        let nk = match code { T_STRUCT => param, T_LIST | T_FSL | T_REE => 1, _ => 0 };
+        let nk = match code { T_STRUCT => param, T_LIST | T_FSL | T_REE => 1, T_MAP => 2, _ => 0 };
         let kids = (0..nk).map(|_| Ty::parse(t, pos)).collect();
         Ty { code, param, variant, dict, kids }
     }
+    /// the entry type of a map seen as a list
+    fn entry_ty(&self) -> Ty { Ty { code: T_STRUCT, param: 2, variant: 0, dict: 0, kids: self.kids.clone() } }
+    fn has_map(&self) -> bool { self.code == T_MAP || self.kids.iter().any(|k| k.has_map()) }
     fn is_utf8(&self) -> bool { self.code == T_VAR && matches!(self.variant, 2 | 3 | 5) }
     /// Arrow data type of the plain (dictionary-free at this node) values
     fn plain_dtype(&self, strip_dict: bool) -> DataType {
@@ -82,6 +87,8 @@ impl Ty {
                 match v { 0 => DataType::List(f), 1 => DataType::LargeList(f), 2 => DataType::ListView(f), _ => DataType::LargeListView(f) }
             }
             (T_FSL, n, _) => DataType::FixedSizeList(Arc::new(Field::new("item", self.kids[0].dtype(strip_dict), true)), n as i32),
+            (T_MAP, _, _) => DataType::Map(Arc::new(Field::new("entries", DataType::Struct(vec![
+                Field::new("keys", self.kids[0].dtype(strip_dict), false), Field::new("values", self.kids[1].dtype(strip_dict), true)].into()), false)), false),
             (T_REE, _, v) => {
                 let r = match v { 0 => DataType::Int16, 1 => DataType::Int32, _ => DataType::Int64 };
                 DataType::RunEndEncoded(Arc::new(Field::new("run_ends", r, false)),
@@ -104,6 +111,7 @@ impl Ty {
             T_STRUCT => format!("S({})", self.kids.iter().map(|k| k.short()).collect::<Vec<_>>().join(",")),
             T_LIST => format!("L{}({})", self.variant, self.kids[0].short()),
             T_FSL => format!("F({})", self.kids[0].short()),
+            T_MAP => format!("M({},{})", self.kids[0].short(), self.kids[1].short()),
             _ => format!("R({})", self.kids[0].short()),
         };
         if self.dict != 0 { format!("D{base}") } else { base }
@@ -112,6 +120,7 @@ impl Ty {
 
 fn write_val(ty: &Ty, v: &Val, out: &mut Vec<BigInt>) {
     if ty.code == T_REE { return write_val(&ty.kids[0], v, out); }
+    if ty.code == T_MAP { return write_val(&Ty { code: T_LIST, param: 0, variant: 0, dict: 0, kids: vec![ty.entry_ty()] }, v, out); }
     match v {
         Val::Null => out.push(0.into()),
         Val::Int(z) => { out.push(1.into()); out.push(z.clone()); }
@@ -123,6 +132,7 @@ fn write_val(ty: &Ty, v: &Val, out: &mut Vec<BigInt>) {
 
 fn parse_val(ty: &Ty, t: &[BigInt], pos: &mut usize) -> Val {
     if ty.code == T_REE { return parse_val(&ty.kids[0], t, pos); }
+    if ty.code == T_MAP { return parse_val(&Ty { code: T_LIST, param: 0, variant: 0, dict: 0, kids: vec![ty.entry_ty()] }, t, pos); }
     let tag = &t[*pos]; *pos += 1;
     if tag.is_zero() { return Val::Null; }
     match ty.code {
@@ -337,8 +347,13 @@ fn rand_val(ty: &Ty, g: &mut Rng, c: &GenCfg) -> Val {
         T_VAR => { let n = rand_len(g, c.big); Val::Bytes(if ty.is_utf8() { rand_utf8(g, n) } else { rand_bytes(g, n) }) }
         T_STRUCT => Val::Struct(ty.kids.iter().map(|k| rand_val(k, g, c)).collect()),
         T_LIST => { let n = [0, 0, 1, 1, 2, 3, 5][g.below(7)]; rand_list(&ty.kids[0], n, g, c) }
+        T_MAP => { let n = [0, 0, 1, 1, 2, 3][g.below(6)]; Val::List((0..n).map(|_| rand_entry(ty, g, c)).collect()) }
         _ => rand_list(&ty.kids[0], ty.param, g, c),
     }
+}
+/// a map entry: the key is never null
+fn rand_entry(ty: &Ty, g: &mut Rng, c: &GenCfg) -> Val {
+    Val::Struct(vec![rand_val(&ty.kids[0], g, &GenCfg { null_pct: 0, big: c.big }), rand_val(&ty.kids[1], g, c)])
 }
 fn rand_list(kid: &Ty, n: usize, g: &mut Rng, c: &GenCfg) -> Val {
     let mut vs: Vec<Val> = Vec::new();
@@ -378,6 +393,23 @@ fn mutate_val(ty: &Ty, v: &Val, g: &mut Rng, c: &GenCfg) -> Val {
                 0 => { vs.pop(); }
                 1 => { let e = if g.bool() { Val::Null } else { rand_val(&ty.kids[0], g, c) }; vs.push(e); }
                 _ => if !vs.is_empty() { let i = if g.bool() { vs.len() - 1 } else { g.below(vs.len()) }; vs[i] = mutate_val(&ty.kids[0], &vs[i], g, c); }
+            }
+            Val::List(vs)
+        }
+        (T_MAP, Val::List(vs)) => {
+            let mut vs = vs.clone();
+            match g.below(4) {
+                0 => { vs.pop(); }
+                1 => { let e = rand_entry(ty, g, c); vs.push(e); }
+                _ => if !vs.is_empty() {
+                    let i = if g.bool() { vs.len() - 1 } else { g.below(vs.len()) };
+                    if let Val::Struct(kv) = &vs[i] {
+                        let mut kv = kv.clone();
+                        if g.bool() { let k = mutate_val(&ty.kids[0], &kv[0], g, &GenCfg { null_pct: 0, big: c.big }); if k != Val::Null { kv[0] = k; } }
+                        else { kv[1] = mutate_val(&ty.kids[1], &kv[1], g, c); }
+                        vs[i] = Val::Struct(kv);
+                    }
+                }
             }
             Val::List(vs)
         }
@@ -498,6 +530,24 @@ fn build(ty: &Ty, vals: &[Val], g: &mut Rng) -> ArrayRef {
                 }
             }
         }
+        T_MAP => {
+            let phys: Vec<Vec<Val>> = vals.iter().map(|v| match v {
+                Val::List(vs) => vs.clone(),
+                _ => (0..g.below(3)).map(|_| rand_entry(ty, g, &GARBAGE)).collect(),
+            }).collect();
+            let nulls = nulls_of(vals, g);
+            let mut elems: Vec<Val> = (0..if g.chance(1, 3) { g.below(3) } else { 0 }).map(|_| rand_entry(ty, g, &GARBAGE)).collect();
+            let mut offs = vec![elems.len()];
+            for p in &phys { elems.extend(p.iter().cloned()); offs.push(elems.len()); }
+            if g.chance(1, 3) { let e = rand_entry(ty, g, &GARBAGE); elems.push(e); }
+            let col = |k: usize| -> Vec<Val> { elems.iter().map(|e| match e { Val::Struct(kv) => kv[k].clone(), _ => unreachable!() }).collect() };
+            let keys = build(&ty.kids[0], &col(0), g);
+            let values = build_sliced(&ty.kids[1], &col(1), g);
+            let DataType::Map(field, _) = ty.dtype(false) else { unreachable!() };
+            let DataType::Struct(efields) = field.data_type().clone() else { unreachable!() };
+            let entries = StructArray::try_new(efields, vec![keys, values], None).unwrap();
+            Arc::new(MapArray::try_new(field, OffsetBuffer::new(offs.iter().map(|o| *o as i32).collect()), entries, nulls, false).unwrap())
+        }
         T_FSL => {
             let kt = &ty.kids[0];
             let mut elems: Vec<Val> = Vec::new();
@@ -615,6 +665,14 @@ fn flatten(ty: &Ty, arr: &dyn Array) -> Vec<Val> {
             };
             (0..n).map(|i| if arr.is_null(i) { Val::Null } else { Val::List(child[ranges[i].0..ranges[i].1].to_vec()) }).collect()
         }
+        T_MAP => {
+            let a = arr.as_map();
+            let keys = flatten(&ty.kids[0], a.keys().as_ref());
+            let values = flatten(&ty.kids[1], a.values().as_ref());
+            let o = a.value_offsets();
+            (0..n).map(|i| if a.is_null(i) { Val::Null } else {
+                Val::List((o[i] as usize..o[i + 1] as usize).map(|j| Val::Struct(vec![keys[j].clone(), values[j].clone()])).collect()) }).collect()
+        }
         T_FSL => {
             let a = arr.as_fixed_size_list(); assert_eq!(a.value_length() as usize, ty.param);
             let child = flatten(&ty.kids[0], a.values().as_ref());
@@ -725,7 +783,12 @@ fn run_inner(op: &str, a: &Args) -> Option<Args> {
             let all: Vec<arrow_row::Row<'_>> = ra.iter().chain(rb.iter()).collect();
             if all.len() != n { return Some(err(E_INVALID)); }
             let mut cm = Vec::with_capacity(n * n); let mut em = Vec::with_capacity(n * n);
-            for x in &all { for y in &all { cm.push(sign(x.cmp(y))); em.push(BigInt::from((x == y) as u8)); } }
+            let owned: Vec<arrow_row::OwnedRow> = all.iter().map(|r| r.owned()).collect();
+            for (i, x) in all.iter().enumerate() { for (j, y) in all.iter().enumerate() {
+                // OwnedRow / Row orderings must agree with each other
+                if owned[i].cmp(&owned[j]) != x.cmp(y) || (owned[i] == owned[j]) != (x == y) || owned[i].row().cmp(y) != x.cmp(y) { return Some(err(E_INVALID)); }
+                cm.push(sign(x.cmp(y))); em.push(BigInt::from((x == y) as u8));
+            } }
             vec![cm, em]
         }
         _ => {
@@ -742,6 +805,12 @@ fn run_inner(op: &str, a: &Args) -> Option<Args> {
             let parser = conv.parser();
             let arrays = if b.mode & 8 != 0 {
                 conv.convert_rows(b.sel.iter().map(|&i| parser.parse(&raw[i]))).ok()?
+            } else if b.mode & 1 != 0 {
+                // the selection buffered in a fresh Rows through Rows::push
+                let mut picked = conv.empty_rows(b.sel.len(), 0);
+                for &i in &b.sel { picked.push(rows.row(i)); }
+                if picked.num_rows() != b.sel.len() { return Some(err(E_INVALID)); }
+                conv.convert_rows(&picked).ok()?
             } else {
                 conv.convert_rows(b.sel.iter().map(|&i| rows.row(i))).ok()?
             };
@@ -776,7 +845,8 @@ fn rand_leaf(g: &mut Rng, allow_dict: bool) -> Ty {
 }
 fn rand_ty(g: &mut Rng, depth: usize) -> Ty {
     if depth == 0 || g.chance(3, 5) { return rand_leaf(g, true); }
-    match g.below(7) {
+    match g.below(8) {
+        7 => Ty { code: T_MAP, param: 0, variant: 0, dict: 0, kids: vec![rand_leaf(g, false), rand_ty(g, depth - 1)] },
         0 | 1 => { let k = [0, 1, 2, 2, 3][g.below(5)]; Ty { code: T_STRUCT, param: k, variant: 0, dict: 0, kids: (0..k).map(|_| rand_ty(g, depth - 1)).collect() } }
         2 | 3 => Ty { code: T_LIST, param: 0, variant: g.below(4) as u8, dict: 0, kids: vec![rand_ty(g, depth - 1)] },
         4 => Ty { code: T_FSL, param: [0, 1, 2, 3][g.below(4)], variant: 0, dict: 0, kids: vec![rand_ty(g, depth - 1)] },
@@ -812,6 +882,12 @@ fn emit_batch(b: &Batch, g: &mut Rng, emit: &mut dyn FnMut(Case), what: u32) {
     let tag_t: String = b.tys.iter().map(|t| t.short()).collect::<Vec<_>>().join("|");
     let tag_o: String = b.opts.iter().map(|o| format!("{}{}", o.descending as u8, o.nulls_first as u8)).collect::<Vec<_>>().join("");
     let args = b.to_args();
+    if b.tys.iter().any(|t| t.has_map()) {
+        // Map is not modelled byte for byte: only the specification oracles apply
+        if what & 2 != 0 { emit(Case::new("c11.cmp", args.clone(), &["c11.cmp.spec"], format!("cmp {tag_t} {tag_o}"))); }
+        if what & 4 != 0 { emit(Case::new("c11.roundtrip", args, &["c11.roundtrip.spec"], format!("rt {tag_t} {tag_o} m{}", b.mode >> 2))); }
+        return;
+    }
     if what & 1 != 0 { emit(Case::new("c11.rows", args.clone(), &["c11.rows"], format!("rows {tag_t} {tag_o} m{}", b.mode & 3))); }
     if what & 2 != 0 { emit(Case::new("c11.cmp", args.clone(), &["c11.cmp.spec", "c11.cmp"], format!("cmp {tag_t} {tag_o}"))); }
     if what & 4 != 0 { emit(Case::new("c11.roundtrip", args, &["c11.roundtrip.spec", "c11.roundtrip"], format!("rt {tag_t} {tag_o} m{}", b.mode >> 2))); }
@@ -884,7 +960,7 @@ pub fn generate(tier: &str, r: &mut Rng, emit: &mut dyn FnMut(Case)) {
 
     // 3. nested types, one column: struct / list (all four layouts) / fixed-size list / run-end / dictionaries inside
     let depth = if thorough { 3 } else { 2 };
-    for i in 0..150 * scale {
+    for i in 0..150 * (if thorough { 30 } else { 1 }) {
         let mut ty = rand_ty(r, depth);
         if ty.kids.is_empty() { ty = Ty { code: [T_STRUCT, T_LIST, T_FSL, T_REE][i % 4], param: if i % 4 == 0 { 1 } else { 2 }, variant: r.below(3) as u8, dict: 0, kids: vec![ty] }; }
         let o = all_opts()[i % 4];
@@ -895,7 +971,7 @@ pub fn generate(tier: &str, r: &mut Rng, emit: &mut dyn FnMut(Case)) {
     }
 
     // 4. multi-column rows: 1-4 fields of mixed types, independent SortOptions per field
-    for i in 0..400 * scale {
+    for i in 0..400 * (if thorough { 30 } else { 1 }) {
         let nf = 1 + r.below(4);
         let tys: Vec<Ty> = (0..nf).map(|_| if r.chance(1, 4) { rand_ty(r, depth - 1) } else { rand_leaf(r, true) }).collect();
         let opts: Vec<SortOptions> = (0..nf).map(|_| all_opts()[r.below(4)]).collect();
